@@ -321,7 +321,12 @@ pub fn eval(expr: Node) -> Result<Number, Box<dyn error::Error>> {
                 #[cfg(feature = "verif_hooks")]
                 crate::verif_hooks::tick_loop();
                 x += 1;
-                n = (n.log10() / b.log10()).floor();
+                let next = (n.log10() / b.log10()).floor();
+                if next >= n {
+                    // the iterates stopped decreasing: they never reach 1
+                    return Ok(Number::Float(f64::INFINITY));
+                }
+                n = next;
             }
             Ok(Number::Integer(x))
         }
